@@ -356,21 +356,38 @@ def r2_overheads(ck, cx):
     f3 = cx.method(tm, '_recv')
     ck.saw('functions', f3.qn)
     mins, peeks = {}, {}
-    for n in ast.walk(f3.node):
-        if isinstance(n, ast.If):
-            chain = n
-            while isinstance(chain, ast.If):
-                t = chain.test
-                if isinstance(t, ast.Call) and callee_name(t) == 'isinstance' and 'framer' in U(t.args[0]):
-                    cns = [U(x) for x in (t.args[1].elts if isinstance(t.args[1], ast.Tuple) else [t.args[1]])]
-                    for s in chain.body:
-                        if isinstance(s, ast.Assign) and isinstance(s.targets[0], ast.Name):
-                            for cn in cns:
-                                if s.targets[0].id == 'min_size':
-                                    mins[cn] = cx.ce.try_ev(s.value, f3.mod, tm)
-                                elif s.targets[0].id == 'func_code':
-                                    peeks[cn] = s.value
-                chain = chain.orelse[0] if len(chain.orelse) == 1 else None
+    # per framer class (the isinstance tests taken as true on a path, whether written as an if-chain or as a loop over a
+    # table): the size handed to the first recvPacket() and the expression compared with 0x80 as the function code
+    for p in cx.enum(f3, tm, max_depth=0, max_paths=400000):
+        annotate(p, heap=False)
+        if contradictory(p):
+            continue
+        cns, excluded = None, set()
+        for e in p.ev:
+            if e.kind == 'cond' and isinstance(e._sub, ast.Call) and callee_name(e._sub) == 'isinstance' and len(e._sub.args) == 2 \
+                    and 'framer' in U(e._sub.args[0]):
+                t = e._sub.args[1]
+                these = {U(x) for x in (t.elts if isinstance(t, ast.Tuple) else [t])}
+                if e.a is True:
+                    cns = these if cns is None else (cns & these)
+                elif e.a is False:
+                    excluded |= these
+        cns = (cns or set()) - excluded
+        if not cns:
+            continue
+        first = [e for e in p.ev if e.kind == 'call' and callee_name(e.node) == 'recvPacket']
+        rp_txt = U(first[0]._sub) if first else None
+        for cn in cns:
+            if first and first[0]._sub.args:
+                v = cx.ce.try_ev(first[0]._sub.args[0], f3.mod, tm)
+                mins.setdefault(cn, set()).add(v)
+            for e in p.ev:
+                if e.kind == 'cond' and isinstance(e._sub, ast.Compare) and len(e._sub.ops) == 1 and cx.ce.try_ev(e._sub.comparators[0], f3.mod, tm) == 0x80 \
+                        and rp_txt and rp_txt in U(e._sub.left):
+                    # the bytes returned by the first read are called read_min in the messages
+                    peeks.setdefault(cn, set()).add(U(e._sub.left).replace(rp_txt, 'read_min'))
+    mins = {k: (list(v)[0] if len(v) == 1 else None) for k, v in mins.items()}
+    peeks = {k: (list(v)[0] if len(v) == 1 else None) for k, v in peeks.items()}
     for kind in ('tcp', 'rtu', 'ascii', 'binary'):
         cn = names[kind]
         pos, width = fcpos[kind]
@@ -380,12 +397,12 @@ def r2_overheads(ck, cx):
         pk = peeks.get(cn)
         okp = False
         if pk is not None:
-            t = U(pk)
+            t = pk
             if kind == 'ascii':
                 okp = t.replace(' ', '') == 'int(read_min[%d:%d],16)' % (pos, pos + width)
             else:
                 okp = t in ('byte2int(read_min[-1])', 'byte2int(read_min[%d])' % pos, 'read_min[-1]', 'read_min[%d]' % pos)
-        ck.ob('R2', f3.qn, 'function-code peek[%s] reads offset %d' % (kind, pos), okp, detail='fc-peek %s %s' % (kind, U(pk) if pk is not None else None), loc=cx.floc(f3))
+        ck.ob('R2', f3.qn, 'function-code peek[%s] reads offset %d' % (kind, pos), okp, detail='fc-peek %s %s' % (kind, pk), loc=cx.floc(f3))
     # ASCII doubling of the predicted PDU size in execute()
     ex = cx.method(tm, 'execute')
     dbl = [n for n in ast.walk(ex.node) if isinstance(n, ast.If) and 'ModbusAsciiFramer' in U(n.test) and
